@@ -1089,3 +1089,142 @@ _run_c02_21 = run
 def run(res, facts, tier):
     _run_c02_21(res, facts, tier)
     r11_substring(res, facts)
+
+
+# ----------------------------------------------------------------------------------------------- R12: node-set comparison kernels
+class _Cell:
+    def __init__(self):
+        self.v = ''
+
+
+def r12_nodeset_kernels(res, facts):
+    """XPath 1.0 §3.4: a comparison involving a node-set is true iff SOME node (pair of nodes) makes the comparison of the converted values true."""
+    import itertools
+    from ..mast import Machine, Unsupported as _U
+    r = res.rule('C02-R12', 'node-set comparison kernels (doCompareNumber, doCompareString, doCompareNodeSets in XObject.cpp) interpreted on node lists of 0..2 nodes: the result is '
+                 '"some node (pair) satisfies the comparison" for every operator, including != against NaN and the empty node-set', floor=300)
+    nan = float('nan')
+    OPS = {'==': lambda a, b: a == b, '!=': lambda a, b: a != b, '<': lambda a, b: a < b, '<=': lambda a, b: a <= b, '>': lambda a, b: a > b, '>=': lambda a, b: a >= b}
+
+    def run_kernel(a, lists, rhs, op, kind):
+        """interpret one kernel instantiation; lists: the node lists (python lists of values) in parameter order"""
+        plist = [p for p in a['params']]
+        env = {}
+        li = 0
+        roles = {}
+        for p in plist:
+            ty = p.get('ty') or ''
+            if 'NodeRefListBase' in ty:
+                env[p['id']] = ('LIST', lists[li]); li += 1
+            elif 'XPathExecutionContext' in ty:
+                env[p['id']] = 'CTX'
+            elif p['n'].lower().find('compare') >= 0:
+                env[p['id']] = 'CMP'
+            elif p['n'].lower().find('function') >= 0:
+                env[p['id']] = 'VALFN'
+            else:
+                env[p['id']] = rhs
+
+        def val(x):
+            return x.v if isinstance(x, _Cell) else x
+
+        def hook(m, c):
+            k = c['k']
+            n = c.get('n') or callee(c).split('::')[-1]
+            if k == 'MCall':
+                o = m.ev(c['obj']) if c.get('obj') is not None and strip_casts(c['obj']).get('k') != 'This' else None
+                if isinstance(o, tuple) and o and o[0] == 'LIST':
+                    if n == 'getLength':
+                        return len(o[1])
+                    if n == 'item':
+                        i = m.ev(c['args'][0])
+                        if not (0 <= i < len(o[1])):
+                            raise _U('item(%d) of a list of %d' % (i, len(o[1])))
+                        return ('NODE', o[1][i])
+                if isinstance(o, _Cell):
+                    if n == 'get':
+                        return o
+                    if n == 'clear':
+                        o.v = ''; return 0
+                return NotImplemented
+            if k == 'OpCall' and c['op'] == '()':
+                f = m.ev(c['args'][0])
+                args = [m.ev(x) for x in c['args'][1:]]
+                if f == 'CMP':
+                    x, y = val(args[0]), val(args[1])
+                    return int(OPS[op](x, y))
+                if f == 'VALFN':
+                    node = args[0]
+                    v = node[1] if isinstance(node, tuple) else node
+                    if len(args) == 2 and isinstance(args[1], _Cell):
+                        args[1].v += v
+                        return 0
+                    return v
+            if k == 'Ctor':
+                if 'GetCachedString' in (c.get('cls') or ''):
+                    return _Cell()
+                if len(c.get('args', [])) == 1:
+                    return m.ev(c['args'][0])
+            if k == 'OpCall' and c['op'] == '*' and len(c['args']) == 1:
+                return m.ev(c['args'][0])
+            if k in ('Call', 'MCall') and 'DoubleSupport' in (c.get('fn') or ''):
+                xs = [val(m.ev(x)) for x in c['args']]
+                if n == 'isNaN':
+                    return int(xs[0] != xs[0])
+                if n == 'isPositiveInfinity':
+                    return int(xs[0] == float('inf'))
+                if n == 'isNegativeInfinity':
+                    return int(xs[0] == float('-inf'))
+                table = {'equal': '==', 'notEqual': '!=', 'lessThan': '<', 'lessThanOrEqual': '<=', 'greaterThan': '>', 'greaterThanOrEqual': '>='}
+                if n in table:
+                    return int(OPS[table[n]](xs[0], xs[1]))
+            if k == 'MCall' and n in ('empty', 'length'):
+                v = val(m.ev(c['obj']))
+                if isinstance(v, str):
+                    return int(v == '') if n == 'empty' else len(v)
+            return NotImplemented
+        m = Machine(env, call_hook=hook)
+        m.fuel = 2000
+        return m.call(a['body'])
+    n_k = 0
+    for kname, kind in (('doCompareNumber', 'num'), ('doCompareString', 'str'), ('doCompareNodeSets', 'sets')):
+        insts = facts.asts_t(kname, must=False)
+        insts = [x for x in insts if x['file'].endswith('XObject.cpp')]
+        if not insts:
+            raise AnalysisBroken('%s has no instantiation in XObject.cpp' % kname)
+        a = insts[0]
+        n_k += 1
+        dom = [nan, 1.0, 2.0] if kind == 'num' else ['a', 'b']
+        ops = list(OPS) if kind == 'num' else ['==', '!=', '<', '>']
+        bad = 0
+        for op in ops:
+            for ln in range(0, 3):
+                for nodes in itertools.product(dom, repeat=ln):
+                    rhss = [list(x) for l2 in range(0, 3) for x in itertools.product(dom, repeat=l2)] if kind == 'sets' else dom
+                    for rhs in rhss:
+                        try:
+                            got = run_kernel(a, [list(nodes)] + ([rhs] if kind == 'sets' else []), rhs, op, kind)
+                        except _U as u:
+                            raise AnalysisBroken('%s outside the interpreted subset: %s' % (kname, u))
+                        if kind == 'sets':
+                            want = any(OPS[op](x, y) for x in nodes for y in rhs)
+                        else:
+                            want = any(OPS[op](x, rhs) for x in nodes)
+                        site = '%s: {%s} %s %s' % (kname, ', '.join(str(x) for x in nodes), op, rhs)
+                        if bool(got) == want:
+                            r.ok(site)
+                        else:
+                            bad += 1
+                            if bad <= 2:
+                                r.violation(site, 'the kernel yields %s, XPath 1.0 §3.4 requires %s ("true iff some node makes the comparison true")' % (bool(got), want), common.file_line(a))
+                            else:
+                                r.instances += 1
+    return r
+
+
+_run_c02_22 = run
+
+
+def run(res, facts, tier):
+    _run_c02_22(res, facts, tier)
+    r12_nodeset_kernels(res, facts)
